@@ -40,13 +40,20 @@ def run(ctx):
         # the generated <field>_nest / _typed_nest with align argument 0 / 1 / 4 (raised to the struct's alignment for struct targets)
         for i in range(60 if not ctx.thorough else 600):
             cases.append(E.make_case(rng, s, maxdepth=2, size=0.3, klass='nested-generated-nest', gen_api=True, full=True, nest_only=True, embed_bias=0.0))
-        # flatcc_builder_embed_buffer: existing bytes embedded inside a nested level with their alignment or a larger one (8..256)
+        # flatcc_builder_embed_buffer: existing bytes embedded at any depth (directly inside the top-level buffer as well as inside nested
+        # levels) with the align argument 1..256 (at least the content's), block_align argument 0..256, with and without the with_size flag
         for i in range(n // 2):
-            cases.append(E.make_case(rng, s, maxdepth=rng.choice([3, 4]), size=rng.choice([0.3, 1.0]), klass='nested-embed', embed_bias=0.7))
+            cases.append(E.make_case(rng, s, maxdepth=rng.choice([3, 4]), size=rng.choice([0.3, 1.0]), klass='nested-embed', embed_bias=0.7, embed_min_depth=1 + i % 2))
+        # every nested field of the TOP-LEVEL buffer filled by embed_buffer (depth 1: nest_id 0 but level 1), parents plain / size prefixed,
+        # block_align 0..256, clustering on / off; deeper levels built in place or embedded
+        for i in range(n // 2):
+            cases.append(E.make_case(rng, s, maxdepth=rng.choice([1, 2, 3]), size=rng.choice([0.3, 1.0]), klass='embed-top-level',
+                                     embed_bias=rng.choice([0.0, 0.5]), embed_top=1.0, embed_ws=rng.choice([0.0, 0.3, 1.0])))
         # nested struct roots through the GENERATED <field>_create_as_root (create_buffer with is_nested, no start_buffer)
         for i in range(n // 3):
             cases.append(E.make_case(rng, s, maxdepth=rng.choice([2, 3]), size=rng.choice([0.3, 1.0]), klass='nested-generated-api', gen_api=True))
     E.run_builds(cases)
+    E.embed_no_parent(rng, 40 if not ctx.thorough else 400)        # level 0: bytes as they are, no size field header (documented)
     ver_items, ver_meta, dump_items, dec_lines, dec_meta = [], [], [], [], []
     nnested = 0
     for c in cases:
@@ -61,6 +68,12 @@ def run(ctx):
         s = c.schema
         raw, align = c.himpl['raw'], c.himpl['align']
         hp = 4 if c.opts['with_size'] else 0
+        lost = bu.embed_header_lost(s, c.node, raw, hp)
+        if lost:
+            ctx.violation('embed-top-level-no-header',
+                          'embed_buffer called inside the open top-level buffer emitted the bytes without the ubyte vector length: nested field %s of the finished parent '
+                          'points straight at the embedded bytes (their first word is read as the vector length)' % lost[0],
+                          {'harness_line': c.h, 'model_line': c.m, 'schema': s.name, 'buffer_hex': raw.hex(), 'path': lost[0]}); continue
         rd = bu.PyReader(raw)
         ext, objs = [], []
         try:
@@ -94,6 +107,10 @@ def run(ctx):
                 ctx.violation('nested-misaligned:%s' % ('sized' if sized else 'plain'),
                               'nested buffer %s starts at offset %d of the parent, not a multiple of %d (the alignment its content needs)' % (path, start, req),
                               dict(base, path=path, offset=start, required=req))
+            elif v.c.get('embed_al') and (start % v.c['embed_al'] or align % v.c['embed_al']):
+                # embed_buffer(align, block_align): the start is a multiple of max(align, 4, block_align) and the parent reports at least that
+                ctx.violation('nested-misaligned:embed-argument', 'embedded buffer %s starts at offset %d of a parent reporting alignment %d; embed_buffer was asked for %d'
+                              % (path, start, align, v.c['embed_al']), dict(base, path=path, offset=start, required=v.c['embed_al']))
             root = v.a
             ri = bu.roots_of(s).index(root)
             am = req if req < 256 else 0
@@ -142,9 +159,9 @@ def run(ctx):
     ctx.cov['generator_histogram']['nested_buffers_extracted'] = nnested
     if dec_lines: ctx.sample({'nested_case': cases[0].h[:300], 'first_nested_dec': dec_lines[0][-200:], 'decoded': mres[0][:200]})
     ctx.trusted = lib.DEFAULT_TRUSTED + ['checks/builder_util.py (generators, independent reader PyReader, req_align)', 'harness/build_script.c, harness/buf_check.c']
-    ctx.assumptions = ['little-endian host', 'nested buffers created with start/end_buffer inside an open parent buffer, or create_buffer(is_nested) for struct roots as the generated code does']
+    ctx.assumptions = ['little-endian host', 'nested buffers created with start/end_buffer inside an open parent buffer, create_buffer(is_nested) for struct roots as the generated code does, or embed_buffer at any depth >= 1 (and with no buffer open: plain emission)']
     ctx.finish_args = dict(
         rule='cases: schemas bnest/bmixd (nested table and struct roots, nested in nested up to the generator depth, alignments 1..32 inside nested content), '
-             'nested size prefix / identifier / block_align 0,8,64, parent clustering on/off, size-prefixed parents; every nested vector of every finished parent is one '
+             'nested size prefix / identifier / block_align 0,8,64, parent clustering on/off, size-prefixed parents; embed_buffer at depth 1..n with align 1..256, block_align 0..256, with_size on/off, and with no buffer open; every nested vector of every finished parent is one '
              'extraction case (standalone verify + reader dump + independent decode + address arithmetic)',
         explanation='theorems of Properties_C15 re-checked; emit-stream correspondence on nested-heavy scripts; every nested buffer of the implementation output extracted and checked in isolation')
